@@ -824,3 +824,33 @@ Proof.
   - intros m Hm. apply In_missing_all in Hm. tauto.
   - apply boundary_all_in_vis.
 Qed.
+
+(* ---- a sender that cannot supply the requested parent inventories ------------------------- *)
+
+Theorem fetch_nr_refused_unchanged U c F T fg r out n T' :
+  fetch_nr U c F T fg r = (out, n, T') -> out <> FOk -> T' = T.
+Proof.
+  unfold fetch_nr. intros H N.
+  destruct (refill U c T (missing U c fg (vis_of F T) r)).
+  - destruct (fetch_preserves U c F T fg r out n T' H) as [_ [_ [_ E]]]. apply E. exact N.
+  - destruct (negb (srcp U r) && (fg || negb (memb r (vis_of F T)))); [inversion H; reflexivity|].
+    destruct (check_ok U (insert U (no_ext c) T (missing U c fg (vis_of F T) r)) (missing U c fg (vis_of F T) r));
+      inversion H; subst; [congruence | reflexivity].
+Qed.
+
+Theorem fetch_nr_supplied U c F T fg r :
+  refill U c T (missing U c fg (vis_of F T) r) = [] -> fetch_nr U c F T fg r = fetch U c F T fg r.
+Proof. unfold fetch_nr. intros E. rewrite E. reflexivity. Qed.
+
+(* the stacking invariant survives such a fetch whenever it is refused or needed no parent inventory *)
+Theorem fetch_nr_keeps_complete U c F T fg r out n T' : wf_univ U = true ->
+  fetch_nr U c F T fg r = (out, n, T') -> ext c = true -> closedb U (vis_of F T) = true ->
+  local_complete U T ->
+  out <> FOk \/ refill U c T (missing U c fg (vis_of F T) r) = [] ->
+  local_complete U T'.
+Proof.
+  intros W H X C HL [N|E].
+  - rewrite (fetch_nr_refused_unchanged U c F T fg r out n T' H N). exact HL.
+  - rewrite (fetch_nr_supplied U c F T fg r E) in H.
+    apply (fetch_keeps_complete U c F T fg r out n T' W H X C HL).
+Qed.
